@@ -11,7 +11,7 @@ From Coq Require Import ZArith List Bool Sorted.
 From Low Require Import Lib.Bits Lib.BitSeq Model.BuilderOps Model.BitmapOf Spec.OfSpec
   Proofs.OfProofs Proofs.OfInspect Proofs.OfRoundTrip Proofs.BuilderProofs
   Model.BitmapMask Spec.MaskSpec Proofs.MaskProofs Model.BitmapFmt Spec.FmtSpec Proofs.FmtProofs
-  Model.Rank Model.BitmapNext Spec.OfQuerySpec Proofs.OfCompose Proofs.OfTotal.
+  Model.Rank Model.BitmapNext Spec.OfQuerySpec Proofs.OfCompose Proofs.OfTotal Proofs.BuilderLen.
 Import ListNotations.
 Open Scope Z_scope.
 
@@ -176,6 +176,27 @@ Theorem C12_Builder_Extend_Of : forall n subs sizes,
        exists r', OfMany subs sizes = Some r' /\ ones (flat (Words b)) = ones (flat r')).
 Proof. exact Builder_Extend_Of. Qed.
 Print Assumptions C12_Builder_Extend_Of.
+
+(** the exact number of words after any history (Extend grows to the words needed for max(Offset + size,
+    Offset + last + 1 when last >= size), Set to the word of p, nothing ever shrinks), and with it Words itself:
+    it is THE word list of that length whose 1-bits are the positions set so far *)
+Theorem C12_Builder_words_exact : forall n ops,
+  0 <= n -> forallb bop_dom ops = true ->
+  exists b0 b, NewBuilder n = Some b0 /\ bfold b0 ops = Some b /\
+    let st := fold_left alen_step ops (0, abs0) in
+    zlen (Words b) = fst st /\ Offset b = aoff (snd st) /\
+    forall ws, words_ok ws -> zlen ws = fst st -> ones (flat ws) = usort (abits (snd st)) -> ws = Words b.
+Proof. exact Builder_words_exact. Qed.
+Print Assumptions C12_Builder_words_exact.
+
+(** * membership: "Get, Get1, SafeGet and SafeGet1 report membership of a position" on the bitmap Of builds *)
+Theorem C12_Of_membership : forall ps opt,
+  StronglySorted Z.lt ps -> (forall p, In p ps -> 0 <= p) ->
+  exists r, Of ps opt = Some r /\
+    (forall i, SafeGet1 r i = Some (Z.b2z (member ps i)) /\ (SafeGet r i = Some 0 <-> ~ In i ps)) /\
+    (forall i, 0 <= i < 64 * zlen r -> Get1 r i = Some (Z.b2z (member ps i)) /\ (Get r i = Some 0 <-> ~ In i ps)).
+Proof. exact Of_membership. Qed.
+Print Assumptions C12_Of_membership.
 
 (** * widening: the mask tables of bitmap/mask.go (Get/SafeGet read [Bit]) *)
 (** every read of Mask/RMask (any integer index): the closed forms 2^i - 1 / 2^64 - 2^i inside 0..64,
@@ -388,4 +409,12 @@ Example C12_Of_total_nonvacuous :
   of_fits [5; -1] None = false /\ Of [5; -1] None = None /\
   of_fits [70; 2; 70; 64] None = true /\ Of [70; 2; 70; 64] None = Some [4; 65] /\
   OfMany [[0; 9]; [1]] [4; 60] = Some [2^9 + 2^5 + 1] /\ OfMany [[0; 200]; [1]] [4; 60] = None.
+Proof. vm_compute. intuition congruence. Qed.
+
+(** Builder word count: the history of C12_Builder_nonvacuous ends with 4 words (Set 200 reaches word 3) *)
+Example C12_Builder_words_nonvacuous :
+  fold_left alen_step [BExtend [1; 70] 3; BExtend [] 0; BSet 200 (-1); BSet 0 1; BSet 5 2; BExtend [0] 1] (0, abs0)
+    = (4, {| abits := [1; 70; 200; 0; 201]; aoff := 202 |}) /\
+  member [0; 63; 64; 190] 64 = true /\ member [0; 63; 64; 190] 65 = false /\
+  SafeGet1 [2^63 + 1; 1; 2^62] 64 = Some 1 /\ SafeGet1 [2^63 + 1; 1; 2^62] (-3) = Some 0.
 Proof. vm_compute. intuition congruence. Qed.
